@@ -36,8 +36,9 @@
 /* reachability canary: this obligation MUST fail, otherwise the requires are vacuous */
 #define V_CANARY(msg) __CPROVER_assert(0, "canary " msg)
 #endif
-#define V_NATIVE_ONLY(x)
-#define V_CBMC_ONLY(x) x
+#define V_NATIVE_ONLY(...)
+#define V_TWEAK(name, ...)
+#define V_CBMC_ONLY(...) __VA_ARGS__
 void* malloc(size_t);
 void free(void*);
 
@@ -56,8 +57,14 @@ extern void* v_buf(const char* name, size_t n);
 #define V_ASSUME(c) do { if (!(c)) v_skip(#c); } while (0)
 #define V_ASSERT(c, msg) do { if (!(c)) v_fail(msg, __FILE__, __LINE__); } while (0)
 #define V_CANARY(msg) v_canary(msg)
-#define V_NATIVE_ONLY(x) x
-#define V_CBMC_ONLY(x)
+#define V_NATIVE_ONLY(...) __VA_ARGS__
+/* search-time steering of a generated input towards the harness's assumptions or towards
+   structured values (multiples of the modulus, ...); skipped when replaying */
+extern int v_replaying(void);
+extern void v_update(const char* name, const void* p, size_t n);
+extern unsigned long long v_rand(void);
+#define V_TWEAK(name, ...) do { if (!v_replaying()) { __VA_ARGS__; v_update(#name, &name, sizeof(name)); } } while (0)
+#define V_CBMC_ONLY(...)
 
 #endif
 
